@@ -66,8 +66,11 @@ func drainChannel[T any](ch <-chan T) {
 
 func cleanInfiniteChannel(ch *channels.InfiniteChannel) {
 	ch.Close()
-	// drain all remaining items
-	drainChannel(ch.Out())
+	// drain all remaining items. Out() is closed once the buffer is empty, so
+	// this terminates; a non-blocking drain can return while the buffering
+	// goroutine still holds items, leaving it blocked on its output forever.
+	for range ch.Out() {
+	}
 }
 
 // Returns the binary formatted Administrative Shutdown Communication from the
